@@ -100,7 +100,8 @@ connection (the harness reads them off the wire).
     the peer itself; at the end the Loc-RIB withdrawal of the routes still installed and the Peer Down;
   * a station connecting while the session is up: Peer Up (same OPENs), the installed routes pre- and post-policy,
     each view closed by End-of-RIB under the peer's header, the Loc-RIB Peer Up, the installed routes and
-    End-of-RIB under the Loc-RIB header (peer type 3), then the same end. -/
+    End-of-RIB under the Loc-RIB header (peer type 3), then the same end;
+  * an MRT update dump running during the session: one BGP4MP record per UPDATE of the peer. -/
 
 def sessionAttrs (rasn : Nat) : List Attr :=
   [ { code := 1, flags := 64, kind := .val, val := 0, data := [] },
@@ -151,7 +152,13 @@ def wantedLive (ap : Bool) (lrid lasn rasn rrid : Nat) (acts : List (Bool × Nat
         left.map (fun n => rmIn peerL (reach n)) ++ eor peerL ++
         [locUp] ++ left.map (fun n => rm loc (noPathIds (reach n))) ++ eor loc ++ closing
     else []
-  zipEmb (early ++ lateL) embs
+  -- the MRT update dump taken during the session (RFC 6396 §4.4.3, RFC 8050 §3): one BGP4MP_MESSAGE_AS4[_ADDPATH]
+  -- per UPDATE of the peer, with both AS numbers and both addresses of the session
+  let dump : List (Option Bytes → Rec) :=
+    acts.map (fun a e =>
+      Rec.mrtMp { rasn := rasn, lasn := lasn, ifidx := 0, raddr := .v4 [127, 0, 0, 1], laddr := .v4 [127, 0, 0, 1],
+                  asn4 := true } ap e (updateOf rasn a))
+  zipEmb (early ++ lateL ++ dump) embs
 
 def wanted : Ev → List Rec
   | .live ap lrid lasn rasn rrid acts late so ro embs => wantedLive ap lrid lasn rasn rrid acts late so ro embs
